@@ -171,6 +171,8 @@ def expmv(f, v, t=1., tol=1e-12, ncv=10, hermitian=False, normalize=False, retur
     info['ncv'] = ncv
     if not normalize:
         v = normv * v
+    elif normv != 0:
+        v = v / v.norm()  # Krylov basis is orthonormal only up to round-off accumulated over (rejected) steps
     return (v, info) if return_info else v
 
 
